@@ -311,4 +311,125 @@ theorem runC_spec (ix : Index) (ops : List Op) : ∀ (c : Memo Name), MemoOk (na
       simp only [runC, List.map_cons, pureAns, iterSymbolsC, iterSymbols]
       rw [this.1, ih _ this.2]
 
+/-! ### per-element cache transparency -/
+
+theorem iterElemC_spec (ix : Index) (c : Memo Name) (i : Nat) (hc : MemoOk (nameAt ix) c) :
+    (iterElemC ix c i).2 = iterElem ix i ∧ MemoOk (nameAt ix) (iterElemC ix c i).1 := by
+  unfold iterElemC iterElem
+  cases hi : ix.rels[i]? with
+  | none => exact ⟨rfl, hc⟩
+  | some s =>
+    have hg := Memo.get_spec (nameAt ix) c i hc
+    simp only [Option.bind_some]
+    exact ⟨by rw [hg.1], hg.2⟩
+
+theorem runSteps_spec (ix : Index) (steps : List Step) : ∀ (c : Memo Name), MemoOk (nameAt ix) c →
+    runSteps ix c steps = steps.map (pureStep ix) := by
+  induction steps with
+  | nil => intro c _; rfl
+  | cons st rest ih =>
+    intro c hc
+    cases st with
+    | lookup a =>
+      have := lookupC_spec ix c a hc
+      simp only [runSteps, List.map_cons, pureStep]
+      rw [this.1, ih _ this.2]
+    | elem i =>
+      have := iterElemC_spec ix c i hc
+      simp only [runSteps, List.map_cons, pureStep]
+      rw [this.1, ih _ this.2]
+
+theorem iterFrom_eq_zipIdx (ix : Index) (l : List Nat) : ∀ k : Nat,
+    iterFrom ix k l = (l.zipIdx k).filterMap (fun p => (nameAt ix p.2).map fun n => (p.1, n)) := by
+  induction l with
+  | nil => intro k; rfl
+  | cons s rest ih =>
+    intro k
+    unfold iterFrom
+    simp only [List.zipIdx_cons, List.filterMap_cons]
+    cases nameAt ix k with
+    | none => simp [ih (k + 1)]
+    | some n => simp [ih (k + 1)]
+
+/-- the elements `0..symbol_count()` put together are the enumeration -/
+theorem iterSymbols_eq_elems (ix : Index) :
+    (List.range ix.rels.length).filterMap (iterElem ix) = iterSymbols ix := by
+  have := filterMap_range_getElem? ix.rels (fun i s => (nameAt ix i).map fun n => (s, n))
+  unfold iterElem iterSymbols
+  rw [this, iterFrom_eq_zipIdx]
+
+/-! ### the record stream: the layout hypothesis of `WF` is a theorem -/
+
+theorem entriesFrom_lower (fileLen : Nat) (recs : List Rec) : ∀ (off : Nat) (e : Entry),
+    e ∈ entriesFrom fileLen off recs → off + 57 ≤ e.codeOff ∧ e.codeOff + e.len ≤ fileLen := by
+  induction recs with
+  | nil => intro off e h; simp [entriesFrom] at h
+  | cons r rest ih =>
+    intro off e h
+    unfold entriesFrom at h
+    split at h
+    · simp at h
+    next hfit =>
+      cases r with
+      | load nl cl nm =>
+        simp only [List.mem_cons] at h
+        rcases h with rfl | h
+        · simp only [Rec.size] at hfit; dsimp only; omega
+        · have := ih _ e h; simp only [Rec.size] at this; omega
+      | debugInfo s => have := ih _ e h; simp only [Rec.size] at this; omega
+      | other s => have := ih _ e h; simp only [Rec.size] at this; omega
+
+/-- the file layout hypothesis of `WF` holds for every record stream: code bytes of one record end before the next
+record's code bytes begin -/
+theorem entriesFrom_layout (fileLen : Nat) (recs : List Rec) : ∀ (off : Nat),
+    (entriesFrom fileLen off recs).Pairwise (fun e1 e2 => e1.codeOff + e1.len < e2.codeOff) := by
+  induction recs with
+  | nil => intro off; simp [entriesFrom]
+  | cons r rest ih =>
+    intro off
+    unfold entriesFrom
+    split
+    · simp
+    · cases r with
+      | load nl cl nm =>
+        simp only
+        rw [List.pairwise_cons]
+        refine ⟨?_, ih _⟩
+        intro e he
+        have := (entriesFrom_lower fileLen rest _ e he).1
+        simp only [Rec.size] at this
+        dsimp only
+        omega
+      | debugInfo s => exact ih _
+      | other s => exact ih _
+
+theorem entriesFrom_len (fileLen : Nat) (recs : List Rec) : ∀ (off : Nat) (e : Entry),
+    e ∈ entriesFrom fileLen off recs → ∃ nl nm, Rec.load nl e.len nm ∈ recs := by
+  induction recs with
+  | nil => intro off e h; simp [entriesFrom] at h
+  | cons r rest ih =>
+    intro off e h
+    unfold entriesFrom at h
+    split at h
+    · simp at h
+    · cases r with
+      | load nl cl nm =>
+        simp only [List.mem_cons] at h
+        rcases h with rfl | h
+        · exact ⟨nl, nm, by simp⟩
+        · obtain ⟨a, b, hab⟩ := ih _ e h; exact ⟨a, b, List.mem_cons_of_mem _ hab⟩
+      | debugInfo s => obtain ⟨a, b, hab⟩ := ih _ e h; exact ⟨a, b, List.mem_cons_of_mem _ hab⟩
+      | other s => obtain ⟨a, b, hab⟩ := ih _ e h; exact ⟨a, b, List.mem_cons_of_mem _ hab⟩
+
+/-- for a record stream whose code records are non-empty and below 4 GiB, `WF` holds for what `from_reader` builds
+from any prefix of the file -/
+theorem entriesFrom_WF (fileLen off : Nat) (recs : List Rec)
+    (h : ∀ nl cl nm, Rec.load nl cl nm ∈ recs → 0 < cl ∧ cl < U32) : WF (entriesFrom fileLen off recs) := by
+  refine ⟨?_, ?_, entriesFrom_layout fileLen recs off⟩
+  · intro e he
+    obtain ⟨nl, nm, hm⟩ := entriesFrom_len fileLen recs off e he
+    exact (h nl e.len nm hm).1
+  · intro e he
+    obtain ⟨nl, nm, hm⟩ := entriesFrom_len fileLen recs off e he
+    exact (h nl e.len nm hm).2
 end JitDump
